@@ -1071,6 +1071,7 @@ def loaderNew (which : Nat) : ResM (Option LoaderO) := do
     if ok then dlSet true
     return none
   if !ok then return none
+  dlSet false             -- any successful dl* call clears what dlerror() would report
   let m ← mmap soLen
   let some a ← malloc | do
     munmap m soLen soLen
@@ -1079,7 +1080,11 @@ def loaderNew (which : Nat) : ResM (Option LoaderO) := do
 
 def loaderFree (l : LoaderO) : ResM Unit := do
   munmap l.map soLen soLen
+  dlSet false
   freeB l.self
+
+/-- `p_library_loader_get_symbol` of an existing symbol -/
+def loaderSym : ResM Unit := dlSet false
 
 /-- `p_library_loader_get_last_error` -/
 def loaderErr : ResM (Char × Option Blk) := do
